@@ -1032,6 +1032,19 @@ func FieldAddrs(fn *ssa.Function) []FieldRead {
 	for _, b := range fn.Blocks {
 		for _, in := range b.Instrs {
 			if fa, ok := in.(*ssa.FieldAddr); ok {
+				// the address of a grouping sub-struct taken only to reach one of its fields is a step on the way,
+				// not an access (the field reached is listed under the holder)
+				if gn := derefNamed(fa.Type()); gn != nil && isGroupingStruct(gn) {
+					only := len(refs(fa)) > 0
+					for _, r := range refs(fa) {
+						if _, isFA := r.(*ssa.FieldAddr); !isFA {
+							only = false
+						}
+					}
+					if only {
+						continue
+					}
+				}
 				if n, f, base := FieldOf(fa); n != nil {
 					out = append(out, FieldRead{Fn: fn, Instr: in, Type: n, Field: f, Base: base, Addr: fa})
 				}
